@@ -17,11 +17,14 @@ import (
 // Interp is one worker: an interpreter plus its solver connection. The
 // per-path state is reset by runPath.
 type Interp struct {
-	prog   *Program
-	ctx    *smt.Ctx
-	solver *smt.Solver
+	prog    *Program
+	ctx     *smt.Ctx
+	solver  *smt.Solver
+	solver2 *smt.Solver // cross-check solver (may be nil)
+	qcount  int
 
 	// budgets
+	CrossEvery      int
 	StepBudget      int
 	DepthBudget     int
 	ForkBudget      int
@@ -101,6 +104,8 @@ type Stats struct {
 	WitnessMods  []map[string]interface{}
 	FeasQ        int
 	OblQ         int
+	CrossQ       int
+	CrossAgree   int
 	SolverTime   time.Duration
 	Samples      []PathSample
 	MaxSteps     int
@@ -458,7 +463,30 @@ func (in *Interp) feasible(cond *smt.Term) bool {
 		in.inconclusive("feasibility query: " + err.Error())
 		return true
 	}
+	in.qcount++
+	if in.solver2 != nil && in.qcount%in.CrossEvery == 0 {
+		in.crossCheck(as, r, "feasibility")
+	}
 	return r != smt.Unsat
+}
+
+// crossCheck re-discharges a query on the second solver; a disagreement
+// between two definite answers makes the run inconclusive.
+func (in *Interp) crossCheck(as []*smt.Term, r smt.Result, kind string) {
+	r2, _, err := in.solver2.Check(as, nil)
+	in.stats.mu.Lock()
+	in.stats.CrossQ++
+	if err == nil && r2 != smt.Unknown && r != smt.Unknown && r2 == r {
+		in.stats.CrossAgree++
+	}
+	in.stats.mu.Unlock()
+	if err != nil {
+		in.inconclusive("cross-check solver error (" + kind + "): " + err.Error())
+		return
+	}
+	if r2 != smt.Unknown && r != smt.Unknown && r2 != r {
+		in.inconclusive(fmt.Sprintf("SOLVER DISAGREEMENT on a %s query: %s says %v, %s says %v", kind, in.solver.Name, r, in.solver2.Name, r2))
+	}
 }
 
 func (in *Interp) inconclusive(msg string) {
@@ -624,6 +652,9 @@ func (in *Interp) check(v Value, msg, knownID string, fr *frame) {
 		in.stats.mu.Lock()
 		in.stats.OblQ++
 		in.stats.mu.Unlock()
+		if in.solver2 != nil && err == nil {
+			in.crossCheck(as, r, "obligation")
+		}
 		switch {
 		case err != nil || r == smt.Unknown:
 			in.inconclusive(fmt.Sprintf("obligation %q: %v %v", msg, r, err))
@@ -815,6 +846,8 @@ type ExploreConfig struct {
 	MaxPaths   int
 	Deadline   time.Time
 	SolverLog  string
+	Solver2    string // cross-check solver ("" = none)
+	CrossEvery int    // cross-check every n-th feasibility query
 	Progress   io.Writer
 }
 
@@ -870,7 +903,24 @@ func Explore(p *Program, entry *ssa.Function, cfg ExploreConfig) (*ExploreResult
 				return
 			}
 			defer solver.Close()
-			in := &Interp{prog: p, ctx: smt.NewCtx(), solver: solver, stats: stats,
+			var solver2 *smt.Solver
+			if cfg.Solver2 != "" {
+				solver2, err = smt.NewSolver(cfg.Solver2, cfg.TimeoutMs)
+				if err != nil {
+					mu.Lock()
+					if firstErr == nil {
+						firstErr = err
+					}
+					mu.Unlock()
+					return
+				}
+				defer solver2.Close()
+			}
+			ce := cfg.CrossEvery
+			if ce <= 0 {
+				ce = 50
+			}
+			in := &Interp{prog: p, ctx: smt.NewCtx(), solver: solver, solver2: solver2, CrossEvery: ce, stats: stats,
 				lfuncs: map[*ssa.Function]int{}, lintr: map[string]int{}, lstubs: map[string]int{},
 				StepBudget: cfg.StepBudget, DepthBudget: 400, ForkBudget: cfg.ForkBudget, ConcretizeLimit: 64}
 			for {
@@ -945,6 +995,9 @@ func Explore(p *Program, entry *ssa.Function, cfg ExploreConfig) (*ExploreResult
 			in.mergeLocalStats()
 			stats.mu.Lock()
 			stats.SolverTime += solver.Time
+			if solver2 != nil {
+				stats.SolverTime += solver2.Time
+			}
 			stats.mu.Unlock()
 		}(w)
 	}
